@@ -234,6 +234,21 @@ pub fn execute(prop: &str, sc: &RrgScript, opts: &ExecOpts) -> Outcome {
                         out.inconclusive = true;
                     } else {
                         let first = &rep.registrations[0].1;
+                        // what the application configured, laid out independently of the builders
+                        if let Ok(topic) = selium_protocol::TopicName::try_from(sc.topic.as_str()) {
+                            let operations: Vec<selium_protocol::Operation> = sc.ops.iter().map(|(m, p)| if *m { selium_protocol::Operation::Map(p.clone()) } else { selium_protocol::Operation::Filter(p.clone()) }).collect();
+                            let retention_policy = sc.retention_s * 1_000;
+                            let configured = match sc.kind {
+                                Kind::Publisher => Some(format!("{:?}", Frame::RegisterPublisher(selium_protocol::PublisherPayload { topic, retention_policy, operations }))),
+                                Kind::Subscriber => Some(format!("{:?}", Frame::RegisterSubscriber(selium_protocol::SubscriberPayload { topic, retention_policy, operations }))),
+                                _ => None,
+                            };
+                            if let Some(c) = configured {
+                                if &c != first {
+                                    out.violate(prop, "registration-differs-from-configuration", &format!("rereg:{k}"), format!("the stream was configured as {c}; it registered as {first}"));
+                                }
+                            }
+                        }
                         for (i, (at, f)) in rep.registrations.iter().enumerate().skip(1) {
                             if f != first {
                                 out.violate(prop, "re-registration-differs", &format!("rereg:{k}"), format!("registration {i} (at {at} ms, after a connection loss) is {f}; the stream was opened with {first}"));
